@@ -1,5 +1,7 @@
 import TsVerif.Common.IO
 import TsVerif.C15.Judge
+import TsVerif.C15.Converse
+import TsVerif.C03.Search
 /-!
 Driver for C15.  Per grammar pair (A = unoptimised table, B = MergeStates table):
 `P <gid> sim=<ok|FAIL diag> statesA=.. statesB=.. closedA=.. closedB=.. det=<ok|FAIL>`; per string:
@@ -13,6 +15,8 @@ structure PState where
   linesA : Array String := #[]
   linesB : Array String := #[]
   det : List String := []
+  gjson : String := ""
+  order : List String := []
   A : Table := {}
   B : Table := {}
   simOK : Bool := false
@@ -23,6 +27,46 @@ def detJudge (ws : List String) : Bool :=
   match ws with
   | ["opt1", p1, t1, "opt0", p0, t0] =>
     [p1, t1, p0, t0].all fun l => allEqual (l.splitOn ",") && (l.splitOn ",").length ≥ 2
+  | _ => false
+
+def reorder (g : Grammar) (order : List String) : Grammar :=
+  if order.isEmpty then g else
+  { g with rules := order.filterMap fun n => (g.rules.lookup n).map fun r => (n, r) }
+
+/-- the premises of `converse_through_grammar` / `merged_tables_equivalent` on this pair (the search
+procedures are untrusted, the five checks are the theorem's decidable premises) -/
+def converseCheck (g : Grammar) (A B : Table) (simOK : Bool) : String :=
+  if g.rules.isEmpty then "na:no-grammar" else
+  if !simOK then "na:no-forward-simulation" else
+  if A.stateCount > 100 then "na:big" else
+  if !sameTerminals A B then "false:terminals" else
+  if !tableSafe B then "false:tableSafe(B)" else
+  let prodsB := prodList B
+  let auxB := findAux g B prodsB
+  if !relOK g B auxB then "false:relOK(B)" else
+  if !tableSafe A then "false:tableSafe(A)" else
+  match startSymbol A with
+  | none => "false:start"
+  | some st =>
+    let prodsA := prodList A
+    let auxA := findAux g A prodsA
+    if !expandSmall g A auxA then "false:big-expansion" else
+    let P := canonP g A auxA prodsA
+    if !coverOK g A auxA P st then "false:coverOK(A)" else
+    let ann := computeAnn A P (auxAllow auxA) st
+    if (ann.items.toList.map List.length).foldl (· + ·) 0 > 8000 then "na:items" else
+    if completeOK A P (auxAllow auxA) ann st then "true" else "false:completeOK(A)"
+
+partial def hasPrecR : Rule → Bool
+  | .prec _ _ _ => true
+  | .seq a b => hasPrecR a || hasPrecR b
+  | .choice a b => hasPrecR a || hasPrecR b
+  | .rep a => hasPrecR a
+  | .rep1 a => hasPrecR a
+  | .field _ a => hasPrecR a
+  | .alias _ _ a => hasPrecR a
+  | .token a => hasPrecR a
+  | .immToken a => hasPrecR a
   | _ => false
 
 def onReady (s : PState) : PState × String :=
@@ -39,8 +83,13 @@ def onReady (s : PState) : PState × String :=
   -- applied to (B, A) proves "optimised accepts with t ⇒ unoptimised accepts with t" for this pair too)
   let rsim := (findSim B A).isSome
   let det := detJudge s.det
+  let g := match parseGrammar s.gjson with
+    | some g => reorder g s.order
+    | none => {}
+  let conv := converseCheck g A B sim.isSome
+  let multi := ((List.range A.stateCount).map fun q => ((A.acts.getD q []).filter fun e => e.2.length > 1).length).foldl (· + ·) 0
   ({ s with A := A, B := B, simOK := sim.isSome },
-   s!"P {s.gid} kind={s.kind} statesA={A.stateCount} statesB={B.stateCount} closedA={tableClosed A} closedB={tableClosed B} det={if det then "ok" else "FAIL"} rsim={rsim} mapped={(sim.map List.length).getD 0} sim={diag}")
+   s!"P {s.gid} kind={s.kind} statesA={A.stateCount} statesB={B.stateCount} closedA={tableClosed A} closedB={tableClosed B} det={if det then "ok" else "FAIL"} rsim={rsim} conv={conv} prec={g.rules.any fun e => hasPrecR e.2} multi={multi} mapped={(sim.map List.length).getD 0} sim={diag}")
 
 def natList (s : String) : List Nat := if s == "-" || s == "" then [] else (s.splitOn ",").map natOf'
 
@@ -81,8 +130,10 @@ def step (s : PState) (line : String) : IO PState := do
     if line == "end" then return { s with mode := 0 } else return { s with linesA := s.linesA.push line }
   if s.mode == 2 then
     if line == "end" then return { s with mode := 0 } else return { s with linesB := s.linesB.push line }
+  if line.startsWith "gjson " then return { s with gjson := (line.drop 6).toString }
   match line.splitOn " " with
   | ["pair", gid, kind] => return { gid := gid, kind := kind }
+  | "ruleorder" :: names => return { s with order := names.map unhexString }
   | ["tableA"] => return { s with mode := 1 }
   | ["tableB"] => return { s with mode := 2 }
   | "det" :: ws => return { s with det := ws }
